@@ -166,7 +166,7 @@ def make_vle(E, ms):
     vle = C.mod('thermosteam.equilibrium.vle')
 
     class SVLE(vle.VLE):
-        __slots__ = ()
+        __slots__ = ('_real_points',)
 
         def _setup(self, *a):
             stub = self._thermo
@@ -179,6 +179,8 @@ def make_vle(E, ms):
             if self._N == 1:
                 self._chemical = StubChemical(E)
             elif self._N > 1:
+                # the objects the library built for this stream (inspected by C04) before they are replaced
+                self._real_points = (self._bubble_point, self._dew_point)
                 self._bubble_point = StubPoint(E, n)
                 self._dew_point = StubPoint(E, n)
                 self._pcf = lambda T, P, Ps: 1.0
@@ -278,6 +280,42 @@ def g_vle(specs, nvol_choices, dists=('liquid', 'gas', 'both'), nonvol=((0, 0), 
                 return
             raise
         check(E, ms, tot, sig, lever=spec[1] in 'xy')
+    return run
+
+
+def g_vle_history(specs, nvol_choices):
+    """a second equilibrium call on the SAME VLE object (same chemicals present) after gas-only material was put
+    into the liquid and condensed-only material into the gas in between (what mix_from of a liquid feed carrying
+    N2 does in a flash-vessel loop): the rules hold after the second call as well"""
+    def run(E):
+        spec = E.pick(specs, 'spec')
+        ms, tot, fsig = mk_feed(E, nvol_choices, ('both',), ((1, 1),))
+        V = make_vle(E, ms)
+        sig = f'second-call/{spec}/{fsig}'
+        refusals = (tmo.exceptions.NoEquilibrium, tmo.exceptions.InfeasibleRegion, NotImplementedError, AssertionError,
+                    ZeroDivisionError, FloatingPointError)
+        try:
+            V(**spec_values(E, spec))
+        except refusals:
+            raise core.PathAbort('first call refused')
+        order = ms.imol._phases
+        tot = list(tot)
+        for ph, idx, tag in (('l', _fx['light'], 'light-into-liquid'), ('g', _fx['heavy'], 'heavy-into-gas')):
+            for i in idx:
+                x = E.real(f'{tag}{i}', nice=(0.5, 10))
+                E.assume(x > 0)
+                row = ms.imol.data.rows[order.index(ph)]
+                row[i] = row.dct.get(i, 0.0) + x
+                tot[i] = tot[i] + x
+        kw = {}
+        for k in spec:
+            kw[k] = E.real(f'{k}spec2', lo={'T': 250, 'P': 1e4}[k], hi={'T': 500, 'P': 5e6}[k], nice={'T': (300, 400), 'P': (5e4, 5e5)}[k])
+        try:
+            V(**kw)
+        except refusals as e:
+            check(E, ms, tot, sig + f'/{type(e).__name__}', vle_rules=False)
+            return
+        check(E, ms, tot, sig)
     return run
 
 
@@ -390,6 +428,7 @@ def groups(tier):
         'vle-TP': (g_vle(['TP'], [0, 1, 2] if q else [0, 1, 2, 3], d, nv), dict(max_paths=3000000, task_budget_s=120)),
         'vle-TV': (g_vle(['TV'], [1] if q else [1, 2], ('both',) if q else d, ((0, 0), (1, 1)) if q else nv), dict(max_paths=3000000, task_budget_s=120, qtimeout_ms=20000)),
         'vle-PV': (g_vle(['PV'], [1] if q else [1, 2], ('both',) if q else d, ((0, 0), (1, 1)) if q else nv), dict(max_paths=3000000, task_budget_s=120, qtimeout_ms=20000)),
+        'vle-second-call': (g_vle_history(['TP'], [1] if q else [1, 2]), dict(max_paths=3000000, task_budget_s=120, qtimeout_ms=20000)),
         'vle-xy': (g_vle(['Tx', 'Px', 'Ty', 'Py'], [2], d, ((0, 0),) if q else nv), dict(max_paths=1000000)),
         'lle': (g_lle((2,), (None, 'Water')) if q else g_lle(), dict(max_paths=1000000, stubs_required=('solve_lle_liquid_mol',), qtimeout_ms=20000)),
         'sle': (g_sle(), dict(max_paths=1000000)),
